@@ -52,6 +52,24 @@ namespace w_cexeval
     constexpr auto lex2 = q.parse(cstring_buffer("a?"));
     static_assert(!lex2.has_value());
 
+    // a literal value type without a default constructor: the fixed-capacity value stack (and with it constant
+    // evaluation) exists only if the value variant itself stays default-constructible
+    struct amount
+    {
+        int v;
+        constexpr explicit amount(int v) : v(v) {}
+    };
+    constexpr nterm<amount> total("total");
+    constexpr parser pa(total, terms(number, '+'), nterms(total),
+        rules(
+            total(number) >= [](std::string_view sv) { return amount(to_int(sv)); },
+            total(total, '+', number) >= [](amount a, skip, std::string_view sv) { return amount(a.v + to_int(sv)); }
+        ));
+    constexpr auto sum_ok = pa.parse(cstring_buffer("1+20+300"));
+    static_assert(sum_ok.has_value() && sum_ok.value().v == 321);
+    constexpr auto sum_bad = pa.parse(cstring_buffer("1++2"));
+    static_assert(!sum_bad.has_value());
+
     constexpr char pattern[] = "a(b|c)*";
     constexpr regex::expr<pattern> r;
     constexpr bool m2 = r.match("xb");
